@@ -31,7 +31,9 @@ Proof.
   - destruct (is_mapped M t) eqn:E.
     + destruct (is_mapped_find _ _ E) as [tc [F [_ N]]].
       destruct sh; cbn; rewrite E; cbn; unfold target_of; cbn; rewrite F; cbn; rewrite N;
-        (split; [reflexivity|]); do 2 eexists; cbn; repeat split; reflexivity.
+        (split; [reflexivity|]); do 2 eexists; cbn; repeat split; try reflexivity;
+        match goal with |- context [if ?b then _ else _] => destruct b end;
+        ((left; reflexivity) || (right; reflexivity)).
     + destruct sh; cbn; rewrite E; exact I.
 Qed.
 
@@ -286,7 +288,7 @@ Proof.
   destruct (kind_of M f) eqn:K; try discriminate.
   - destruct H as [_ [col [_ [_ [_ [_ [_ [A [B C]]]]]]]]]. rewrite A, B, C. split; [|split]; intros ? Hx; destruct Hx.
   - destruct (kind_ref_mapped M f target (or_introl K)) as [tc [Htc N]].
-    destruct H as [_ [k [r [A [B [_ [_ [C [_ [T [U [FK [S FT]]]]]]]]]]]]]. rewrite A, B, C. split; [|split].
+    destruct H as [_ [k [r [A [B [_ [_ [C [_ [T [U [FK [S [FT _]]]]]]]]]]]]]]. rewrite A, B, C. split; [|split].
     + intros k' [<-|[]]. exists tc. rewrite N. auto.
     + intros r' [<-|[]]. exists tc. rewrite N. repeat split; auto. right. cbn. auto.
     + intros ? [].
